@@ -661,7 +661,15 @@ def describe_arg(I, fr, v, tyid):
                 reg = I._read_raw_nolazy(obj, tg[0][1], I.F.types[pointee]['sz'])
                 cells = tuple((o, tm.show(c[1], 0, 6)) for o, c in sorted(reg.cells.items()))
                 if obj.kind == 'const':
-                    return ('constref', pn, cells)
+                    # constants are compared by content (format templates, literal tables), not only by type
+                    a = [al for al, o in I._const_objs.items() if o is obj]
+                    raw = None
+                    if a:
+                        try:
+                            raw = I.F.allocs[a[0]]['bytes'][2 * tg[0][1]:2 * (tg[0][1] + I.F.types[pointee]['sz'])]
+                        except Exception:
+                            raw = None
+                    return ('constref', pn, cells, raw)
                 return ('ref', pn, cells)
         if meta is not None and tm.is_const(meta) and len(tg) == 1:
             obj = I.heap.get(tg[0][0])
